@@ -630,7 +630,8 @@ func Range(from, exclusive int) fp.List[int] {
 
 func RangeClosed(from, inclusive int) fp.List[int] {
 	return GenerateFrom(from, func(index int) fp.Option[int] {
-		if index <= inclusive {
+		// index >= from : past math.MaxInt the index wraps around and would be <= inclusive again
+		if index >= from && index <= inclusive {
 			return option.Some(index)
 		}
 		return option.None[int]()
